@@ -162,8 +162,10 @@ class RayMeshIntersector:
 
         if multiple_hits or return_locations:
             # how much to offset ray to transport to the other side of face
+            # a fraction of the size of the mesh: `self._scale` is the
+            # factor to the unit box, which shrinks as the mesh grows
             distance = np.clip(
-                _ray_offset_factor * self._scale, _ray_offset_floor, np.inf
+                _ray_offset_factor * self.mesh.scale, _ray_offset_floor, np.inf
             )
             ray_offsets = ray_directions * distance
 
